@@ -22,6 +22,7 @@ type Env struct {
 	entry *State // state at function entry (old)
 	eargs map[types.Object]Value
 	snap  *State // state at loop entry (unchanged)
+	head  *ssa.BasicBlock // header of the loop whose clause is being evaluated (nil outside loop clauses)
 	cells map[token.Pos]*ssa.Alloc
 	multi map[token.Pos][]*ssa.Alloc // several cells per position (type-switch variables: one per case clause)
 	ct    *Contract
@@ -67,6 +68,7 @@ func (u *Unit) invEnv(st *State, fr *Frame, b *ssa.BasicBlock) *Env {
 	env.cells = u.cellsOf(fr.fn)
 	env.multi = u.cellMulti[fr.fn]
 	env.snap = fr.loopSnap[b]
+	env.head = b
 	// parameters live in cells in naive form: invariants see the current value
 	for _, p := range fr.fn.Params {
 		if p.Object() != nil {
@@ -99,6 +101,13 @@ func (env *Env) lookup(obj types.Object, name string) Value {
 	}
 	if env.fr != nil {
 		if a, ok := env.cells[obj.Pos()]; ok {
+			// the key variable of a range loop, read at the loop's cut point, is the index of the next iteration
+			// (what the same variable holds at the head of the equivalent `for i := 0; i < n; i++` loop)
+			if env.head != nil && a == env.u.rangeKeyCell(env.head) {
+				if iv, ok := env.u.iterValue(env.st, env.fr, env.head); ok {
+					return iv
+				}
+			}
 			if p, ok := env.fr.regs[a]; ok {
 				v, _ := env.u.load(env.st, env.fr, p, nil)
 				return v
@@ -381,11 +390,10 @@ func (env *Env) evalCall(cl *Clause, x *ast.CallExpr) Value {
 		if env.fr == nil {
 			specFail("iter() outside a loop")
 		}
-		for _, a := range env.u.rangeCells(env.fr.fn, env.snapBlock()) {
-			v, _ := u.load(st, env.fr, env.fr.regs[a], nil)
-			return IntV{IntAdd(v.(IntV).T, IntK(1)), true}
+		if iv, ok := u.iterValue(st, env.fr, env.snapBlock()); ok {
+			return iv
 		}
-		specFail("iter(): not a range loop")
+		specFail("iter(): neither a range loop nor a loop with a single counter incremented once per iteration")
 	case "old":
 		if env.entry == nil {
 			specFail("old() without entry state")
@@ -628,6 +636,122 @@ func (env *Env) snapBlock() *ssa.BasicBlock {
 	for b, s := range env.fr.loopSnap {
 		if s == env.snap {
 			return b
+		}
+	}
+	return nil
+}
+
+// iterValue: the number of completed iterations at the cut point of the loop with header h: the hidden index of a
+// range loop plus one, or, for a three-clause loop, the distance its counter (the one cell that is stored exactly
+// once per iteration, in the post block, as itself plus one) has moved since loop entry.
+func (u *Unit) iterValue(st *State, fr *Frame, h *ssa.BasicBlock) (Value, bool) {
+	if h == nil {
+		return nil, false
+	}
+	for _, a := range u.rangeCells(fr.fn, h) {
+		v, _ := u.load(st, fr, fr.regs[a], nil)
+		return IntV{IntAdd(v.(IntV).T, IntK(1)), true}, true
+	}
+	c := u.counterCell(h)
+	snap := fr.loopSnap[h]
+	if c == nil || snap == nil {
+		return nil, false
+	}
+	p, ok := fr.regs[c]
+	if !ok {
+		return nil, false
+	}
+	cur, ok1 := u.load(st, fr, p, nil)
+	was, ok2 := u.load(snap, fr, p, nil)
+	ci, ok3 := cur.(IntV)
+	wi, ok4 := was.(IntV)
+	if !ok1 || !ok2 || !ok3 || !ok4 || !ci.T.IsInt() || !wi.T.IsInt() {
+		return nil, false
+	}
+	return IntV{IntSub(ci.T, wi.T), true}, true
+}
+
+// counterCell: the unique local of type int that the loop with header h stores exactly once, in its post block, as
+// its own value plus one.
+func (u *Unit) counterCell(h *ssa.BasicBlock) *ssa.Alloc {
+	body := naturalLoop(h)
+	stores := map[*ssa.Alloc][]*ssa.Store{}
+	for b := range body {
+		for _, in := range b.Instrs {
+			if s, ok := in.(*ssa.Store); ok {
+				if a, ok := s.Addr.(*ssa.Alloc); ok {
+					stores[a] = append(stores[a], s)
+				}
+			}
+		}
+	}
+	var found *ssa.Alloc
+	for a, ss := range stores {
+		if len(ss) != 1 {
+			continue
+		}
+		bo, ok := ss[0].Val.(*ssa.BinOp)
+		if !ok || bo.Op != token.ADD {
+			continue
+		}
+		ld, ok := bo.X.(*ssa.UnOp)
+		k, ok2 := bo.Y.(*ssa.Const)
+		if !ok || !ok2 || ld.Op != token.MUL || ld.X != ssa.Value(a) || k.Value == nil || k.Value.ExactString() != "1" {
+			continue
+		}
+		if bt, ok := a.Type().(*types.Pointer).Elem().Underlying().(*types.Basic); !ok || bt.Kind() != types.Int {
+			continue
+		}
+		// the storing block must be executed exactly once per iteration: it is the only block of the loop that
+		// jumps back to the header (the single latch), and it does nothing else afterwards
+		lb := ss[0].Block()
+		if len(lb.Succs) != 1 || lb.Succs[0] != h {
+			continue
+		}
+		latches := 0
+		for _, p := range h.Preds {
+			if body[p] {
+				latches++
+			}
+		}
+		if latches != 1 {
+			continue
+		}
+		if found != nil {
+			return nil
+		}
+		found = a
+	}
+	return found
+}
+
+// rangeKeyCell: the key variable (`for i := range s`) of the range loop with header h, or nil.
+func (u *Unit) rangeKeyCell(h *ssa.BasicBlock) *ssa.Alloc {
+	var inc ssa.Value
+	var ri *ssa.Alloc
+	for _, in := range h.Instrs {
+		if s, ok := in.(*ssa.Store); ok {
+			if a, ok := s.Addr.(*ssa.Alloc); ok && a.Comment == "rangeindex" {
+				inc, ri = s.Val, a
+			}
+		}
+	}
+	if inc == nil {
+		return nil
+	}
+	for _, succ := range h.Succs {
+		for _, in := range succ.Instrs {
+			s, ok := in.(*ssa.Store)
+			if !ok {
+				continue
+			}
+			fromIndex := s.Val == inc
+			if ld, ok := s.Val.(*ssa.UnOp); ok && ld.Op == token.MUL && ld.X == ssa.Value(ri) {
+				fromIndex = true
+			}
+			if a, ok := s.Addr.(*ssa.Alloc); ok && fromIndex && a.Comment != "rangeindex" {
+				return a
+			}
 		}
 	}
 	return nil
@@ -893,7 +1017,7 @@ func (env *Env) formula(cl *Clause, asGoal bool) (res *Term) {
 	}
 	// hypothesis: instantiate lazily against a snapshot of the current state
 	snap := env.st.clone()
-	senv := &Env{u: env.u, st: snap, fr: env.fr, objs: map[types.Object]Value{}, entry: env.entry, eargs: env.eargs, snap: env.snap, cells: env.cells, multi: env.multi, ct: env.ct, vars: map[int]Value{}, hyp: true, lazy: true}
+	senv := &Env{u: env.u, st: snap, fr: env.fr, objs: map[types.Object]Value{}, entry: env.entry, eargs: env.eargs, snap: env.snap, head: env.head, cells: env.cells, multi: env.multi, ct: env.ct, vars: map[int]Value{}, hyp: true, lazy: true}
 	for k, v := range env.objs {
 		senv.objs[k] = v
 	}
